@@ -247,6 +247,30 @@ Proof.
   - destruct H as (? & ? & ?); apply rt_cancel; assumption.
 Qed.
 
+(* consequences: the encoding is prefix-free, so a byte stream names at most one message sequence *)
+Theorem encode_prefix_free m1 m2 r1 r2 : FieldsOk m1 -> FieldsOk m2 ->
+  encode_msg m1 ++ r1 = encode_msg m2 ++ r2 -> m1 = m2 /\ r1 = r2.
+Proof.
+  intros H1 H2 E.
+  pose proof (roundtrip m1 r1 H1) as P1. pose proof (roundtrip m2 r2 H2) as P2.
+  rewrite E in P1. rewrite P1 in P2. injection P2 as Hm _. subst m2.
+  split; [reflexivity|]. eapply app_inv_head. exact E.
+Qed.
+
+(* a whole stream: two sequences of well-formed messages with the same bytes are the same sequence *)
+Theorem encode_stream_injective ms1 : forall ms2, Forall FieldsOk ms1 -> Forall FieldsOk ms2 ->
+  concat (map encode_msg ms1) = concat (map encode_msg ms2) -> ms1 = ms2.
+Proof.
+  induction ms1 as [|m1 ms1 IH]; intros [|m2 ms2] F1 F2 E; cbn [map concat] in E.
+  - reflexivity.
+  - exfalso. inversion F2 as [|? ? Hm2 _]; subst.
+    pose proof (roundtrip m2 (concat (map encode_msg ms2)) Hm2) as P. rewrite <- E in P. cbn in P. discriminate.
+  - exfalso. inversion F1 as [|? ? Hm1 _]; subst.
+    pose proof (roundtrip m1 (concat (map encode_msg ms1)) Hm1) as P. rewrite E in P. cbn in P. discriminate.
+  - inversion F1 as [|? ? Hm1 F1']; inversion F2 as [|? ? Hm2 F2']; subst.
+    destruct (encode_prefix_free _ _ _ _ Hm1 Hm2 E) as [-> Er]. f_equal. apply IH; assumption.
+Qed.
+
 (* ---- bitfield ----------------------------------------------------------- *)
 
 Definition unpack8 := unpack_byte 8.
